@@ -85,3 +85,9 @@ def nontrivial(prop, case):
 def heap_variants(prop, case):
     h = _h(case)
     return [{"via0": "flat", "spelling": "plain"}, {"via0": RVIAS[h % len(RVIAS)], "spelling": ["plain", "tuple", "empty"][(h // 16) % 3]}]
+
+
+def hash_variants(prop, case):
+    h = _h(case)
+    return [{"query": ["list", "array"][h % 2], "batch": ["list", "array"][(h // 2) % 2], "npkey": bool(h & 4), "vecset": bool(h & 8),
+             "omit_zero": bool(h & 16), "kdt": ["i8", "i8", "i4", "i2"][(h // 32) % 4], "vdt": "i8"}]
